@@ -12,18 +12,20 @@ import (
 )
 
 type solver struct {
-	name    string
-	in      *bufio.Writer
-	out     *bufio.Scanner
-	cmd     *exec.Cmd
-	nSat    int
-	nUnsat  int
-	nUnk    int
-	time    time.Duration
-	slowest time.Duration
-	log     *os.File
-	cvc5    bool
-	timeout int // ms per query
+	name     string
+	in       *bufio.Writer
+	out      *bufio.Scanner
+	cmd      *exec.Cmd
+	nSat     int
+	nUnsat   int
+	nUnk     int
+	time     time.Duration
+	slowest  time.Duration
+	log      *os.File
+	cvc5     bool
+	timeout  int // ms per query
+	retrying bool
+	retries  int
 }
 
 const (
@@ -102,7 +104,16 @@ func (s *solver) checkCmd() string {
 	if s.cvc5 {
 		return "(check-sat)"
 	}
-	return fmt.Sprintf("(check-sat-using (try-for qfbv %d))", s.timeout)
+	return fmt.Sprintf("(check-sat-using (try-for qfbv %d))", s.timeout*s.scale())
+}
+
+// a query that times out is asked once more with five times the budget (a loaded machine
+// must not turn into an inconclusive verdict)
+func (s *solver) scale() int {
+	if s.retrying {
+		return 5
+	}
+	return 1
 }
 
 func (s *solver) readLine() string {
@@ -143,6 +154,13 @@ func (s *solver) check(extra ...*term) string {
 	s.send("(pop)")
 	s.in.Flush()
 	r := s.readLine()
+	if r != "sat" && r != "unsat" && !s.retrying && !s.cvc5 {
+		s.retrying = true
+		s.retries++
+		r = s.check(extra...)
+		s.retrying = false
+		return r
+	}
 	s.account(r, t0)
 	return r
 }
@@ -157,6 +175,15 @@ func (s *solver) model(extra []*term, names []string) (string, map[string]string
 	s.send(s.checkCmd())
 	s.in.Flush()
 	r := s.readLine()
+	if r != "sat" && r != "unsat" && !s.retrying && !s.cvc5 {
+		s.send("(pop)")
+		s.in.Flush()
+		s.retrying = true
+		s.retries++
+		r2, m2 := s.model(extra, names)
+		s.retrying = false
+		return r2, m2
+	}
 	s.account(r, t0)
 	res := map[string]string{}
 	if r == "sat" && len(names) > 0 {
